@@ -422,6 +422,41 @@ impl<'tcx> Interp<'tcx> {
                     let y = self.int_arg(st, a.get(1)?)?;
                     return one(Val::Int(ops::arith(Arith::Sub, &x, &y, x.ty, true, &at).0));
                 }
+                ("saturating_add", Some(x)) | ("saturating_sub", Some(x)) => {
+                    let y = self.int_arg(st, a.get(1)?)?;
+                    let (lo, hi) = if m == "saturating_add" { (x.lo.saturating_add(y.lo), x.hi.saturating_add(y.hi)) } else { (x.lo.saturating_sub(y.hi), x.hi.saturating_sub(y.lo)) };
+                    let (lo, hi) = (lo.clamp(x.ty.min(), x.ty.max()), hi.clamp(x.ty.min(), x.ty.max()));
+                    return one(Val::Int(IntV::new(lo, hi, x.ty).with_taint(x.taint | y.taint)));
+                }
+                ("checked_add", Some(x)) | ("checked_sub", Some(x)) | ("checked_mul", Some(x)) => {
+                    let y = self.int_arg(st, a.get(1)?)?;
+                    let op = match m { "checked_add" => Arith::Add, "checked_sub" => Arith::Sub, _ => Arith::Mul };
+                    let (v, may_overflow) = ops::arith(op, &x, &y, x.ty, false, &at);
+                    let some = Val::Enum(Rc::new(EnumV { variants: [(1u32, vec![Val::Int(v.clone())])].into_iter().collect() }));
+                    let none = Val::Enum(Rc::new(EnumV { variants: [(0u32, vec![])].into_iter().collect() }));
+                    // exact bounds decide whether overflow is possible / certain
+                    let (elo, ehi) = match op {
+                        Arith::Add => (x.lo.saturating_add(y.lo), x.hi.saturating_add(y.hi)),
+                        Arith::Sub => (x.lo.saturating_sub(y.hi), x.hi.saturating_sub(y.lo)),
+                        Arith::Mul => {
+                            let c = [x.lo.saturating_mul(y.lo), x.lo.saturating_mul(y.hi), x.hi.saturating_mul(y.lo), x.hi.saturating_mul(y.hi)];
+                            (*c.iter().min().unwrap(), *c.iter().max().unwrap())
+                        }
+                    };
+                    let always = ehi < x.ty.min() || elo > x.ty.max();
+                    if always {
+                        return one(none);
+                    }
+                    if !may_overflow {
+                        return one(some);
+                    }
+                    return one(some.join(&none));
+                }
+                ("min", Some(x)) | ("max", Some(x)) => {
+                    let y = self.int_arg(st, a.get(1)?)?;
+                    let (lo, hi) = if m == "min" { (x.lo.min(y.lo), x.hi.min(y.hi)) } else { (x.lo.max(y.lo), x.hi.max(y.hi)) };
+                    return one(Val::Int(IntV::new(lo, hi, x.ty).with_taint(x.taint | y.taint)));
+                }
                 ("to_le_bytes", Some(x)) => {
                     let nb = (x.ty.bits / 8) as u64;
                     let mut arr = ArrV::uniform(Val::Int(IntV::new(0, 255, ITy::U8).with_taint(x.taint)), nb);
